@@ -5,8 +5,8 @@ reg("C14", "non-conditional simulations follow their model; basic generators hav
          "5 turning bands on a 16x16 (thorough 20x20) grid [1-2 nested structures of {spherical, exponential, gaussian, cubic, "
          "matern, stable, sincard, besselj} + optional nugget, anisotropy ratio ~0.25-0.3 rotated along a grid direction "
          "(1,0),(0,1),(1,+-1),(2,+-1),(1,+-2), sill in [0.03,0.2] or [8,50], non-zero mean, 1-2 variables with cross-correlation "
-         "+-0.7..0.95 of opposite signs in nested structures, nbtuba 100/200], 2 turning bands on scattered points (1-D, 2-D, 3-D), "
-         "2 simfft (reference: isotropic short range on a square grid; alternately anisotropic model / non-square grid), "
+         "+-0.7..0.95 of opposite signs in nested structures, nbtuba 100/200; two of the five carry a selection masking about a quarter of the nodes, the statistics then use active nodes only], 2 turning bands on scattered points (1-D, 2-D, 3-D), "
+         "2 simfft (reference: isotropic short range on a square grid; in turn non-square grid / anisotropic model / 3-D cubic grid 10^3 (thorough 12^3) with an isotropic short range), "
          "1 simuSpectral (block mod 4: gaussian unit sill; matern nu 1.5/2.5 unit sill; sill far from 1; reference exponential / "
          "matern 0.5 unit sill), 1 Cholesky (MatrixSquareSymmetricSim dense inverse=false/true, sparse; CholeskyDense / "
          "CholeskySparse::evalSimulate with VH::simulateGaussian white noise), 1 simulateSPDE (Matern nu=1, 12x12 grid), 4 basic "
@@ -20,7 +20,7 @@ reg("C14", "non-conditional simulations follow their model; basic generators hav
          "allowance*sqrt(Cii(0)Cjj(0)); SD from the MODEL (Isserlis double sum over the pairs), z = 8.2 = sqrt(2 ln(2*2e5/1e-9)) "
          "(Bonferroni over up to 2e5 statistics), kappa = 1 for variances (PSD quadratic form) and sqrt(2) otherwise, z/sqrt(2R) = "
          "exact sub-exponential tail correction (Laurent-Massart). method_allowance (fraction of the sill, calibrated on the "
-         "unchanged tree): turning bands 0.03, FFT 0.08 (range <= 0.17 grid size, square grid, isotropic), spectral 0.03, Cholesky 0, "
+         "unchanged tree): turning bands 0.03, FFT 0.08 (range <= 0.17 grid size, square grid, isotropic; 0.03 on the 3-D cubic grid, measured error < 0.01), spectral 0.03, Cholesky 0, "
          "SPDE 0.08; on means 0.01/0.01/0.01/0/0.02 of the standard deviation. Laws: N = 2e5 (thorough 2e6; poisson >= 16: 1e6/2e6) "
          "draws; the mean and the central moments 2-4 about the mean of the law, bound z*sqrt((cm_2k-cm_k^2)/N) + 2 Q^k x/(3N) "
          "(Bernstein, Q = 1e-20 quantile) + 2e-3*sqrt(cm_2k) (generator allowance, calibrated); support; reach of the range (an "
